@@ -20,6 +20,7 @@ def observe(cmd, args):
         if n is not True and n is not False: return "is_normalized_name did not return a bool"
         return "|".join([b(v is not None), b(n), c])
     if cmd == "n.lower": return args[0].lower()
+    if cmd == "n.re": return "|".join([b(validates(args[0]) is not None), b(is_normalized_name(args[0]))])     # the two .match patterns, through the public entry points
     if cmd == "law.n.pair": return law_pair(args[0], args[1])
     if cmd == "law.n.allcp": return law_allcp(args[0])
     if cmd == "law.n.lowertable": return law_lowertable()
@@ -97,7 +98,7 @@ def law_lowertable():
        (a) the generated table coq/Gen/LowerTable.v IS chr(c).lower() (and the restricted table of Names.canon_name is exact where it claims);
        (b) the three hypotheses of NamesLower: never empty; a non-separator lower-cases to non-separators that lower() leaves fixed;
            on [A-Za-z0-9._-] it is the ASCII lower-casing;
-       (c) the two classes read by the Final_Sigma rule, by probing str.lower() around U+03A3."""
+       (c) the two classes read by the Final_Sigma rule, by probing str.lower() after AND before U+03A3."""
     tab = gen_table("LowerTable.v", "lower_table", "lower")
     cased = gen_table("LowerTable.v", "sig_cased_ranges", 2); ign = gen_table("LowerTable.v", "sig_ign_ranges", 2)
     flat_c = set(); flat_i = set()
@@ -121,4 +122,6 @@ def law_lowertable():
         a = ("a" + SIGMA + c).lower()[1] == "\u03c3"; b2 = ("a" + SIGMA + c + "a").lower()[1] == "\u03c3"
         if a != (cp in flat_c): return "U+%04X: cased-and-not-ignorable class differs from the generated table" % cp
         if (b2 and not a) != (cp in flat_i): return "U+%04X: case-ignorable class differs from the generated table" % cp
+        before = ("a" + c + SIGMA).lower()[-1] == "\u03c2"      # before side: final after a cased letter, skipping case-ignorables
+        if before != (cp in flat_c or cp in flat_i): return "U+%04X before U+03A3: final-sigma is %r, the generated classes say %r" % (cp, before, not before)
     return "ok"
